@@ -49,7 +49,7 @@ class UserProblem(Problem):
             super().__init__(F.var_lb, F.var_ub)
         self.jac_const = not any(F.hasQ) and not F.ccub.any()
         self.hess_const = (self.jac_const and not F.cub.any() and not F.quart.any()
-                           and F.exp is None and F.logbar is None and not F.rosen)
+                           and F.exp is None and F.logbar is None and not F.rosen and not F.entropy)
 
     def _ret(self, kind, key, make, const_ok=False):
         if self.policy == "fresh":
